@@ -17,7 +17,8 @@ Section S.
     intros H. unfold gen_ruler_delta, gen_ruler_zerobin, gen_ruler_at, ruler_delta, ruler_zerobin, ruler_at, two.
     assert (E : fz (K:=K) (steps - 1) = fz steps - 1) by (rewrite fz_sub, fz_1; reflexivity).
     rewrite E in *.
-    repeat split; first [reflexivity | ring | field; repeat split; first [assumption | exact (@nz2 K)]].
+    (* ring identities once every quotient x / y is read as x * (1/y): no fact about the denominators is needed *)
+    repeat split; first [reflexivity | ring | rewrite ?(Fdiv_def (@Fth K)); ring].
   Qed.
 
   (** the zero bin of the generated expressions is the index of coordinate 0 (C03_zerobin_correct, over the source) *)
